@@ -8,16 +8,16 @@ import (
 
 // connInfo summarises one connection from the trace.
 type connInfo struct {
-	k          int
-	dialAt     int  // trace index of "dial"
-	dialDone   int  // trace index of "dialdone"
-	dialErr    string
-	connack    int  // rx CONNACK index (-1)
-	accepted   bool // CONNACK code 0
-	sp         bool
-	endAt      int    // first cut/close index (-1)
-	endKind    string // cut | close
-	activeAt   int
+	k        int
+	dialAt   int // trace index of "dial"
+	dialDone int // trace index of "dialdone"
+	dialErr  string
+	connack  int  // rx CONNACK index (-1)
+	accepted bool // CONNACK code 0
+	sp       bool
+	endAt    int    // first cut/close index (-1)
+	endKind  string // cut | close
+	activeAt int
 }
 
 func (ix *index) connInfos() map[int]*connInfo {
